@@ -393,20 +393,30 @@ macro_rules! kind_reversed {
         /// runs `f(index, edge, which)` for every edge the iterator yields; `f` returns false to stop (cap); returns false if stopped
         pub fn iter_loop(n: &N, which: &str, f: &mut dyn FnMut(usize, (usize, usize, u32), &str) -> bool) -> bool {
             let mut i = 0;
+            // the iterator is driven by hand so that the rest of its `Iterator` surface (`size_hint`, which `collect`,
+            // `extend` and `len` consult) is exercised between the steps of a loop whose body mutates the graph
             if which == "in" {
-                for Edge(u, v, e) in n.iter_in() {
+                let mut it = n.iter_in();
+                loop {
+                    let _ = it.size_hint();
+                    let Some(Edge(u, v, e)) = it.next() else { break };
                     if !f(i, (*u.key(), *v.key(), e), "in") {
                         return false;
                     }
                     i += 1;
                 }
+                let _ = it.size_hint();
             } else {
-                for Edge(u, v, e) in n.iter_out() {
+                let mut it = n.iter_out();
+                loop {
+                    let _ = it.size_hint();
+                    let Some(Edge(u, v, e)) = it.next() else { break };
                     if !f(i, (*u.key(), *v.key(), e), "out") {
                         return false;
                     }
                     i += 1;
                 }
+                let _ = it.size_hint();
             }
             true
         }
@@ -435,12 +445,16 @@ macro_rules! kind_reversed {
     (un) => {
         pub fn iter_loop(n: &N, _which: &str, f: &mut dyn FnMut(usize, (usize, usize, u32), &str) -> bool) -> bool {
             let mut i = 0;
-            for Edge(u, v, e) in n.iter() {
+            let mut it = n.iter();
+            loop {
+                let _ = it.size_hint();
+                let Some(Edge(u, v, e)) = it.next() else { break };
                 if !f(i, (*u.key(), *v.key(), e), "adj") {
                     return false;
                 }
                 i += 1;
             }
+            let _ = it.size_hint();
             true
         }
         fn nested_search(n: &N, t: usize) -> Option<usize> {
@@ -626,6 +640,29 @@ macro_rules! ext_mod {
                     serde_json::from_slice::<Doc>(bytes).ok()
                 } else {
                     serde_cbor::from_slice::<Doc>(bytes).ok()
+                }
+            }
+            /// C13: `Deserialize::deserialize_in_place` into a graph that already has content must agree with a fresh
+            /// deserialisation of the same bytes (everything in the result comes from the document)
+            fn in_place_agrees(bytes: &[u8], fmt: &str, fresh: &Result<G, String>) -> Result<(), String> {
+                use serde::Deserialize;
+                let mut g = G::new();
+                let (a, b2) = (N::new(900_001, 5), N::new(900_002, 6));
+                a.connect(&b2, 3);
+                g.insert(a);
+                g.insert(b2);
+                let r: Result<(), String> = if fmt == "json" {
+                    let mut de = serde_json::Deserializer::from_slice(bytes);
+                    G::deserialize_in_place(&mut de, &mut g).map_err(|e| e.to_string()).and_then(|_| de.end().map_err(|e| e.to_string()))
+                } else {
+                    let mut de = serde_cbor::Deserializer::from_slice(bytes);
+                    G::deserialize_in_place(&mut de, &mut g).map_err(|e| e.to_string()).and_then(|_| de.end().map_err(|e| e.to_string()))
+                };
+                match (fresh, r) {
+                    (Ok(f), Ok(())) => crate::oracle_cont::same_graph(DIRECTED, &denotation(f), &denotation(&g)).map_err(|m| format!("deserialize_in_place into a populated graph differs from a fresh deserialisation: {m}")),
+                    (Err(_), Err(_)) => Ok(()),
+                    (Ok(_), Err(e)) => Err(format!("fresh deserialisation is Ok but deserialize_in_place fails: {e}")),
+                    (Err(e), Ok(())) => Err(format!("fresh deserialisation fails ({e}) but deserialize_in_place returns Ok")),
                 }
             }
             /// C13: invariants of an `Ok` graph against the abstract document (if it could be typed)
@@ -1041,6 +1078,11 @@ macro_rules! ext_mod {
                                 };
                                 let r = de(&bytes, t[2]);
                                 let c13 = !ctx.quiet && ctx.oracles.iter().any(|o| o == "c13");
+                                if c13 {
+                                    if let Err(m) = in_place_agrees(&bytes, t[2], &r) {
+                                        ctx.fail(case, li, "c13", format!("`{}` ({}): {m}", text, t[2]));
+                                    }
+                                }
                                 match r {
                                     Err(_) => {
                                         if abs == "any" { "any".into() } else { "err".into() }
@@ -1075,6 +1117,11 @@ macro_rules! ext_mod {
                                 let bytes = crate::exec_cont::unhex(t.get(3).copied().unwrap_or(""));
                                 let r = de(&bytes, t[2]);
                                 let c13 = !ctx.quiet && ctx.oracles.iter().any(|o| o == "c13");
+                                if c13 {
+                                    if let Err(m) = in_place_agrees(&bytes, t[2], &r) {
+                                        ctx.fail(case, li, "c13", format!("{} bytes {}: {m}", t[2], t.get(3).copied().unwrap_or("")));
+                                    }
+                                }
                                 let doc: Option<Doc> = if t[2] == "json" {
                                     serde_json::from_slice::<Doc>(&bytes).ok()
                                         .or_else(|| serde_json::from_slice::<(Vec<(usize, i64)>,)>(&bytes).ok().map(|x| (x.0, vec![])))
